@@ -552,7 +552,7 @@ func (c *Ctx) engineCRestricted(id, text string, floor int, set map[string]bool)
 	only := func(k string) bool { return set[k] }
 	if stale["print.go"] {
 		cur, err := os.ReadFile(filepath.Join(c.P.Dir, "internal/rfmt/print.go"))
-		a := &auditor{own: ownNames(filepath.Join(c.P.Dir, "internal/rfmt"))}
+		a := &auditor{own: ownNames(filepath.Join(c.P.Dir, "internal/rfmt")), ownFuncs: ownMethods(filepath.Join(c.P.Dir, "internal/rfmt"))}
 		fork, err2 := a.auditFuncs("print.go", string(cur), "fork")
 		if err != nil || err2 != nil {
 			r.Undecide("cannot parse print.go")
@@ -563,7 +563,7 @@ func (c *Ctx) engineCRestricted(id, text string, floor int, set map[string]bool)
 	}
 	if stale["format.go"] {
 		cur, err := os.ReadFile(filepath.Join(c.P.Dir, "internal/rfmt/format.go"))
-		a := &auditor{own: ownNames(filepath.Join(c.P.Dir, "internal/rfmt"))}
+		a := &auditor{own: ownNames(filepath.Join(c.P.Dir, "internal/rfmt")), ownFuncs: ownMethods(filepath.Join(c.P.Dir, "internal/rfmt"))}
 		fork, err2 := a.auditFuncs("format.go", string(cur), "fork")
 		if err != nil || err2 != nil {
 			r.Undecide("cannot parse format.go")
